@@ -267,6 +267,10 @@ def compare_tables(chk, what, rb, mt, nth, lN, uN, case):
     """read-back bookkeeping rb vs model tables mt; returns list of problems (strings)"""
     probs = []
     recip_exact = (nth * (1.0 / nth) == 1.0)
+    import math as _m
+    if not all(_m.isfinite(float(x)) for x in rb['msq']):
+        probs.append('_mVals has non-finite entries %r, the squared mode numbers are %r' % ([float(x) for x in rb['msq']][:6], mt['msq'][:6]))
+        return probs, recip_exact
     msq_exact = [qlift.frac_of_float(x) for x in rb['msq']]
     if len(msq_exact) != nth:
         probs.append('len(_mVals) = %d for nTheta = %d' % (len(msq_exact), nth))
